@@ -29,9 +29,22 @@ def gen_hex(wd, gen):
     return out
 
 
+def vh_or_isolate(args, what):
+    """Runs a harness command in-process (fast); if the process is killed (abort, stack overflow,
+    runaway allocation) or its watchdog fires, runs it again with every case in a forked child, so
+    that the culprit is reported as a case outcome instead of taking the whole run down."""
+    rc, out, _ = run([VH] + [str(a) for a in args], 7200)
+    if rc == 0:
+        return
+    log("[isolate] %s ended with status %s; repeating it case by case in child processes" % (what, rc))
+    rc2, out2, _ = run([VH] + [str(a) for a in args] + ["--isolate", 1], 14400)
+    if rc2 != 0:
+        raise ToolError("vh %s exited %d even in isolation:\n%s" % (args[0], rc2, out2[-2000:]))
+
+
 def replay_generated(c, wd, gen, threads=12):
     res = gen + ".res"
-    vh(["deflate-replay", "--in", gen, "--out", res, "--threads", threads], ok_codes=(0, 3))
+    vh_or_isolate(["deflate-replay", "--in", gen, "--out", res, "--threads", threads], "replay of generated streams")
     return list(read_ndjson(res))
 
 
@@ -45,7 +58,7 @@ def record_driver(wd, tier, seed, traces, streams=None, mutants=None, maxlen=Non
             "--corpus", os.path.join(VERIF, "corpus", "deflate")]
     if traces:
         args += ["--trace", tr, "--traces", traces, "--tracemax", tracemax or (20000 if q else 120000)]
-    vh(args, ok_codes=(0, 3))
+    vh_or_isolate(args, "driver streams")
     return list(read_ndjson(res)), (tr if traces else None)
 
 
